@@ -344,6 +344,48 @@ func c18SlowStore(r *hx.Run, cw *c18World, ps *plans, rnd *rand.Rand, n int) {
 				continue
 			}
 			r.Distinct(fmt.Sprintf("slow_delete %s during=%s", cn, during.Label))
+		} else if i%4 == 3 {
+			// (c) a waiter is answered while the store write of the fetch is still under way, and the purge is called
+			// after that answer: the response somebody has already seen is gone for good once the purge returns
+			gate := make(chan struct{})
+			ps.set(uri, &plan{Seq: []ans{{Kind: "cacheable", T: 500}}, Gate: func(*hx.Fetch) <-chan struct{} { return gate }})
+			cw.slowSet.Store(int64(300 * time.Millisecond))
+			fch, wch := make(chan *hx.Result, 1), make(chan *hx.Result, 1)
+			go func() { fch <- cw.Cl.Do(rq) }()
+			okF := hx.WaitUntil(10*time.Second, func() bool { return cw.Farm.InflightKey(key) == 1 })
+			reg := cw.Pts.Count("get.registered")
+			go func() { wch <- cw.Cl.Do(rq) }()
+			okW := hx.WaitUntil(10*time.Second, func() bool { return cw.Pts.Count("get.registered") > reg })
+			close(gate)
+			wres := <-wch
+			pr := cw.purge(key, cn)
+			cw.slowSet.Store(0)
+			fres := <-fch
+			time.Sleep(50 * time.Millisecond)
+			_, have := cw.stores[cn].Peek(key)
+			after := cw.Cl.Do(rq)
+			if !okF || !okW || wres.Label != "hit" || fres.Label != "fetching" {
+				r.InconclusiveCase("C18 slow store: no waiter answered from the fetch")
+				ps.del(uri)
+				continue
+			}
+			r.Eval(1)
+			r.Add("purges_after_a_waiter_was_answered_with_the_store_write_pending", 1)
+			cs["variant"] = "purge_after_waiter_answer_slow_set"
+			if wres.Err != nil || fres.Err != nil || pr.Err != nil || pr.Status != 204 || after.Err != nil {
+				r.Violate("purge_failed", map[string]string{"variant": "waiter_slow_set"}, "purge or request failed with a slow store set", nil, cs)
+				continue
+			}
+			wit := map[string]interface{}{"fetcher": fres.Brief(), "waiter_answered_before_the_purge_was_called": wres.Brief(), "purge": pr.Brief(), "after": after.Brief()}
+			if have {
+				r.Violate("persisted_copy_survives_purge", map[string]string{"variant": "waiter_slow_set"}, "a waiter had been answered from the fetch, then the key was purged; the fetch's store write landed after the purge had completed and the record is back", wit, cs)
+				continue
+			}
+			if after.Label == "hit" && after.FetchID == fres.FetchID {
+				r.Violate("purged_version_served_after_purge_completed", map[string]string{"variant": "waiter_slow_set"}, "request after the purge answered from the response a waiter had received before the purge was called", wit, cs)
+				continue
+			}
+			r.Distinct(fmt.Sprintf("waiter_slow_set %s", cn))
 		} else {
 			// (b) slow set: purge right after the fill; the persisted copy must not reappear
 			// usually 40 ms; one case in sixteen stalls for seconds (a store that hangs and then recovers)
@@ -591,7 +633,7 @@ func c18Porcupine(r *hx.Run, cw *c18World, ps *plans, rnd *rand.Rand, n int) {
 
 func c18(r *hx.Run) {
 	r.MaxViol = 6 // violations here usually cost a watchdog period each
-	r.Rule = "three caches (one without store, two with scripted in-memory stores) behind three servers sharing the client-supplied Host; purges through the real admin DELETE /cache; keys with percent escapes, plus signs and of more than 512 bytes; store writes that stall for 2.3 s and then land. basics: fetch+hit on every cache, one purge variant {named, unnamed, absent cache, absent key, named twice} (in a quarter of the cases every store delete takes 25 ms), store records inspected, next request per cache and for a neighbour key judged by the entry model; slow store: a lookup issued while the purge is between LRU removal and the end of a slow store delete, and a purge right after a fill whose store write is slow (afterwards the key must not be answered from the purged version and the record must be gone); directed: purge while the fetch is held at the origin with 1-5 parked waiters (must return before the release, nobody stranded); overlap: a second identical unnamed purge called while the first is still busy with a slow store, the key fetched again in between - after the second returns no cache may answer a hit; added cache: a reload adds a fourth cache and server, then the basics again with unnamed and named purges; porcupine: 6 clients + 2 purgers + clock advancer, per (cache,key) linearizability. Non-trivial = case with a purge of a present key; distinct = variant/partition."
+	r.Rule = "three caches (one without store, two with scripted in-memory stores) behind three servers sharing the client-supplied Host; purges through the real admin DELETE /cache; keys with percent escapes, plus signs and of more than 512 bytes; store writes that stall for 2.3 s and then land. basics: fetch+hit on every cache, one purge variant {named, unnamed, absent cache, absent key, named twice} (in a quarter of the cases every store delete takes 25 ms), store records inspected, next request per cache and for a neighbour key judged by the entry model; slow store: a lookup issued while the purge is between LRU removal and the end of a slow store delete, a purge right after a fill whose store write is slow, and a purge called after a waiter was answered while the fetch's store write is still under way (afterwards the key must not be answered from the purged version and the record must be gone); directed: purge while the fetch is held at the origin with 1-5 parked waiters (must return before the release, nobody stranded); overlap: a second identical unnamed purge called while the first is still busy with a slow store, the key fetched again in between - after the second returns no cache may answer a hit; added cache: a reload adds a fourth cache and server, then the basics again with unnamed and named purges; porcupine: 6 clients + 2 purgers + clock advancer, per (cache,key) linearizability. Non-trivial = case with a purge of a present key; distinct = variant/partition."
 	r.Assume = []string{"virtual clock, hook points", "the in-memory store stands for the persistent store (badger itself in C08)", "-race build"}
 	rnd := rand.New(rand.NewSource(r.Seed))
 	cw := newC18World(r)
